@@ -806,7 +806,9 @@ HLgetdatainfo(int32 file_id, uint8 *buf, /* IN: special header info */
 
         /* Get offset/length of blocks that actually point to a data elem,
            until all blocks in this table with valid ref#s are processed */
-        for (ii = 0; ii < num_blocks && link_info->block_list[ii].ref != 0; ii++) {
+        for (ii = 0; ii < num_blocks && link_info->block_list[ii].ref != 0 &&
+                     (info_count == 0 || num_data_blocks < info_count);
+             ii++) {
             int32  offset, length;
             uint16 block_ref = link_info->block_list[ii].ref; /* shortcut */
 
